@@ -3,7 +3,9 @@ package main
 import (
 	"encoding/json"
 	"fmt"
+	"go/types"
 	"os"
+	"regexp"
 	"runtime/debug"
 	"sort"
 	"strings"
@@ -70,7 +72,60 @@ func (e *Env) Model(mod string) *Model {
 	}
 	m := BuildModel(e.Prog(mod))
 	e.models[mod] = m
+	resolveSignersByExploration(m)
 	return m
+}
+
+var signerTerm = regexp.MustCompile(`^addr\(req\.([A-Za-z][A-Za-z0-9]*)\)$`)
+
+// resolveSignersByExploration: where GetSigners is not the plain "decode one field" shape (it calls a
+// shared helper, possibly in another package), the signer field is read off its explored result: every
+// returning path yields exactly one element addr(req.F) for the same F.
+func resolveSignersByExploration(m *Model) {
+	var x *Explorer
+	for _, ep := range m.Entries {
+		if ep.Kind != "msg" || ep.Req == nil || ep.SignerField != "" || m.P.SSA == nil {
+			continue
+		}
+		if x == nil {
+			x = NewExplorer(m)
+		}
+		for _, recv := range []types.Type{ep.Req, types.NewPointer(ep.Req)} {
+			sel := m.P.SSA.MethodSets.MethodSet(recv).Lookup(ep.Req.Obj().Pkg(), "GetSigners")
+			if sel == nil {
+				continue
+			}
+			fn := m.P.SSA.MethodValue(sel)
+			if fn == nil || fn.Synthetic != "" || len(fn.Params) != 1 {
+				continue
+			}
+			var recvVal Val = &Sym{N: "req", T: fn.Params[0].Type()}
+			if _, isPtr := fn.Params[0].Type().(*types.Pointer); isPtr {
+				recvVal = &SymPtr{Base: "req", T: fn.Params[0].Type()}
+			}
+			field, ok := "", true
+			for _, o := range x.Explore(fn, []Val{recvVal}) {
+				if o.Kind != exitReturn || len(o.Rets) != 1 {
+					continue
+				}
+				els, known := x.sliceElems(o.St, o.Rets[0])
+				if !known || len(els) != 1 {
+					ok = false
+					break
+				}
+				mm := signerTerm.FindStringSubmatch(o.St.canon(els[0]))
+				if mm == nil || (field != "" && field != mm[1]) {
+					ok = false
+					break
+				}
+				field = mm[1]
+			}
+			if ok && field != "" {
+				ep.SignerField = field
+			}
+			break
+		}
+	}
 }
 
 type loadError struct{ err error }
